@@ -277,6 +277,15 @@ func checkC02(w *World, r *Report) {
 	r.rule("C02.reg", "the one in-place update of shared storage (the _PACKAGES_ registry written by lib/call.call) is unreachable from the evaluator and from every registered builtin")
 	r.rule("C02.copyrecv", "every store to a field of a value struct (List, Vector, HashMap, Set, MalFunc, Func, Symbol, LispError) goes to a copy local to the activation, never through a pointer obtained from outside")
 	r.rule("C02.noreflectset", "no reflect.Value.Set*, unsafe or sync/atomic pointer writes in the library")
+	// a binding is itself something nothing but def may change: "a binding read twice with no intervening def of
+	// that name is equal both times" and "captured by a closure" rest on the scope discipline of the evaluator
+	r.include("C02.binding-", "C01.", "a name bound in a scope keeps its value unless def rebinds it there: every binding form writes into a scope of its own", checkC01, func(rule string) bool {
+		switch rule {
+		case "C01.scope", "C01.lookup-order", "C01.lookup-pure", "C01.def":
+			return true
+		}
+		return false
+	})
 	e := newEngine(w)
 	nWrites := ruleContainerWrites(w, r, e, "C02.write", func(fn *ssa.Function) bool { return runtimePkg(fnPkgPath(fn)) }, true)
 	r.floor("C02.write", "container write sites in the library", nWrites, 40)
